@@ -2,12 +2,8 @@ SPECIFICATION Spec
 INVARIANT Inv
 CHECK_DEADLOCK FALSE
 CONSTANTS
-  MaxIn = 1
-  MaxOut = 1
-  Kinds = {"xof", "xofa"}
-  WithCopy = FALSE
-  Duplex = TRUE
-  ChunkLens <- DuplexChunks
+  Chunks = {0, 1, 31, 32, 33, 64, 100}
+  MaxFresh = 200
   PermOp <- SPermOp
   BX <- SBX
   BC <- SBC
